@@ -50,8 +50,9 @@ def gen_lines(ctx):
     codes = list(range(256)) if thorough else sorted(set(EDGE_CODES + [rng.randrange(256) for _ in range(8)]))
     vals = ["-"] + [str(v) for v in range(32)] + ([str(v) for v in range(32, 256)] if thorough else
                                                    [str(rng.randrange(32, 256)) for _ in range(4)])
-    # option values of two to four bytes on the wire (only the low five bits matter, the rest must be ignored)
-    vals += [str(v) for v in (256 + 2, 256 + 24, 0x10000 + 8, 0x01000000 + 16, 0xFFFFFFFF, 0xFFFFFFE0, rng.randrange(256, 1 << 32))]
+    # (values above 255 are not put on the wire: RFC 7967 defines the option as a uint of length 0-1, the parser drops a
+    #  longer one as it does every option with a registry-illegal length - C02's subject -, so such a request carries no
+    #  No-Response option at all; values of up to four bytes are exercised at the response-writer level by `rw`/`rwl`)
     for c in codes:
         for v in vals:
             L.append("srv udp con %s %d" % (v, c))
